@@ -131,6 +131,12 @@ impl<D: Device, P: Protocol, S: Socket, TS: TimeSource> GenericCloud<D, P, S, TS
         let now = TS::now();
         let update_freq = config.get_keepalive() as u16;
         let node_id = random();
+        #[cfg(dswd_vpncloud_verif)]
+        let node_id = {
+            let mut id: NodeId = node_id;
+            crate::verif::fill("cloud.node_id", &mut id);
+            id
+        };
         let crypto = Crypto::new(node_id, &config.crypto).unwrap();
         let beacon_key = config.beacon_password.as_ref().map(|s| s.as_bytes()).unwrap_or(&[]);
         let mut res = GenericCloud {
@@ -308,6 +314,11 @@ impl<D: Device, P: Protocol, S: Socket, TS: TimeSource> GenericCloud<D, P, S, TS
         }
         if peers.len() > 20 {
             let mut rng = rand::thread_rng();
+            #[cfg(dswd_vpncloud_verif)]
+            let mut rng = {
+                let _ = &mut rng;
+                crate::verif::rng("cloud.node_info_shuffle")
+            };
             peers.partial_shuffle(&mut rng, 20);
             peers.truncate(20);
         }
@@ -361,6 +372,8 @@ impl<D: Device, P: Protocol, S: Socket, TS: TimeSource> GenericCloud<D, P, S, TS
         for addr in del {
             self.pending_inits.remove(&addr);
             if self.peers.remove(&addr).is_some() {
+                #[cfg(dswd_vpncloud_verif)]
+                crate::verif::probe(crate::verif::Event::PeerRemoved { addr, reason: "crypto" });
                 self.connect_sock(addr)?;
             }
         }
@@ -431,6 +444,8 @@ impl<D: Device, P: Protocol, S: Socket, TS: TimeSource> GenericCloud<D, P, S, TS
         }
         for addr in del {
             info!("Forgot peer {} due to timeout", addr_nice(addr));
+            #[cfg(dswd_vpncloud_verif)]
+            crate::verif::probe(crate::verif::Event::PeerRemoved { addr, reason: "timeout" });
             self.peers.remove(&addr);
             self.table.remove_claims(addr);
             self.connect_sock(addr)?; // Try to reconnect
@@ -451,6 +466,12 @@ impl<D: Device, P: Protocol, S: Socket, TS: TimeSource> GenericCloud<D, P, S, TS
             // Reschedule for next update
             let min_peer_timeout = self.peers.iter().map(|p| p.1.peer_timeout).min().unwrap_or(DEFAULT_PEER_TIMEOUT);
             let interval = min(self.update_freq, max(min_peer_timeout / 2 - 60, 1));
+            #[cfg(dswd_vpncloud_verif)]
+            crate::verif::probe(crate::verif::Event::NodeInfoScheduled {
+                interval,
+                min_peer_timeout,
+                peers: self.peers.len(),
+            });
             self.next_peers = now + Time::from(interval);
         }
         self.reconnect_to_peers()?;
@@ -483,8 +504,16 @@ impl<D: Device, P: Protocol, S: Socket, TS: TimeSource> GenericCloud<D, P, S, TS
     /// Stores the beacon
     fn store_beacon(&mut self) -> Result<(), Error> {
         if let Some(ref path) = self.config.beacon_store {
+            #[cfg(not(dswd_vpncloud_verif))]
             let peers: SmallVec<[SocketAddr; 3]> =
                 self.own_addresses.choose_multiple(&mut thread_rng(), 3).cloned().collect();
+            #[cfg(dswd_vpncloud_verif)]
+            let peers: SmallVec<[SocketAddr; 3]> = {
+                let _ = thread_rng;
+                self.own_addresses.choose_multiple(&mut crate::verif::rng("cloud.beacon_choice"), 3).cloned().collect()
+            };
+            #[cfg(dswd_vpncloud_verif)]
+            crate::verif::probe(crate::verif::Event::BeaconStored { addrs: peers.to_vec() });
             if let Some(path) = path.strip_prefix('|') {
                 self.beacon_serializer
                     .write_to_cmd(&peers, path)
@@ -517,6 +546,8 @@ impl<D: Device, P: Protocol, S: Socket, TS: TimeSource> GenericCloud<D, P, S, TS
             return Ok(());
         }
         debug!("Loaded beacon with peers: {:?}", peers);
+        #[cfg(dswd_vpncloud_verif)]
+        crate::verif::probe(crate::verif::Event::BeaconLoaded { addrs: peers.clone() });
         for peer in peers {
             self.connect_sock(peer)?;
         }
@@ -613,6 +644,8 @@ impl<D: Device, P: Protocol, S: Socket, TS: TimeSource> GenericCloud<D, P, S, TS
         let (src, dst) = P::parse(data.message())?;
         debug!("Read data from interface: src: {}, dst: {}, {} bytes", src, dst, data.len());
         self.traffic.count_out_payload(dst, src, data.len());
+        #[cfg(dswd_vpncloud_verif)]
+        crate::verif::probe(crate::verif::Event::Lookup { dst, hop: self.table.lookup(dst) });
         match self.table.lookup(dst) {
             Some(addr) => {
                 // HOT PATH
@@ -655,6 +688,8 @@ impl<D: Device, P: Protocol, S: Socket, TS: TimeSource> GenericCloud<D, P, S, TS
             true,
         );
         if let Some(init) = self.pending_inits.remove(&addr) {
+            #[cfg(dswd_vpncloud_verif)]
+            crate::verif::probe(crate::verif::Event::PeerAdded { addr });
             self.peers.insert(
                 addr,
                 PeerData {
@@ -676,6 +711,8 @@ impl<D: Device, P: Protocol, S: Socket, TS: TimeSource> GenericCloud<D, P, S, TS
     fn remove_peer(&mut self, addr: SocketAddr) {
         if let Some(peer) = self.peers.remove(&addr) {
             info!("Closing connection to {}", addr_nice(addr));
+            #[cfg(dswd_vpncloud_verif)]
+            crate::verif::probe(crate::verif::Event::PeerRemoved { addr, reason: "close" });
             self.table.remove_claims(addr);
             self.config.call_hook(
                 "peer_disconnected",
@@ -737,6 +774,8 @@ impl<D: Device, P: Protocol, S: Socket, TS: TimeSource> GenericCloud<D, P, S, TS
         }
         if let Some(info) = info {
             debug!("Adding claims of peer {}: {:?}", addr_nice(addr), info.claims);
+            #[cfg(dswd_vpncloud_verif)]
+            crate::verif::probe(crate::verif::Event::ClaimsSet { peer: addr, claims: info.claims.to_vec() });
             self.table.set_claims(addr, info.claims);
             debug!("Received {} peers from {}: {:?}", info.peers.len(), addr_nice(addr), info.peers);
             self.connect_to_peers(&info.peers)?;
@@ -754,6 +793,10 @@ impl<D: Device, P: Protocol, S: Socket, TS: TimeSource> GenericCloud<D, P, S, TS
             error!("Failed to send via device: {}", e);
             return Err(e);
         }
+        #[cfg(dswd_vpncloud_verif)]
+        if self.learning {
+            crate::verif::probe(crate::verif::Event::Learned { addr: src, peer });
+        }
         if self.learning {
             // Learn single address
             self.table.cache(src, peer);
@@ -765,6 +808,10 @@ impl<D: Device, P: Protocol, S: Socket, TS: TimeSource> GenericCloud<D, P, S, TS
         &mut self, src: SocketAddr, msg_result: MessageResult<NodeInfo>, data: &mut MsgBuffer,
     ) -> Result<(), Error> {
         // HOT PATH
+        #[cfg(dswd_vpncloud_verif)]
+        if let MessageResult::Message(kind) = msg_result {
+            crate::verif::probe(crate::verif::Event::Message { src, kind });
+        }
         match msg_result {
             MessageResult::Message(type_) => {
                 // HOT PATH
@@ -979,6 +1026,99 @@ impl<D: Device, P: Protocol, S: Socket, TS: TimeSource> GenericCloud<D, P, S, TS
                     error!("Failed to remove beacon file: {}", e)
                 }
             }
+        }
+    }
+}
+
+#[cfg(dswd_vpncloud_verif)]
+impl<D: Device, P: Protocol, S: Socket, TS: TimeSource> GenericCloud<D, P, S, TS> {
+    pub fn verif_socket(&mut self) -> &mut S {
+        &mut self.socket
+    }
+
+    pub fn verif_device(&mut self) -> &mut D {
+        &mut self.device
+    }
+
+    pub fn verif_crypto(&self) -> &Crypto {
+        &self.crypto
+    }
+
+    /// One iteration of the loop in `run()`: the event, then the housekeeping condition
+    pub fn verif_step(&mut self, evt: WaitResult, buffer: &mut MsgBuffer) -> Result<(), Error> {
+        match evt {
+            WaitResult::Error(_) => {}
+            WaitResult::Timeout => {}
+            WaitResult::Socket => self.handle_socket_event(buffer),
+            WaitResult::Device => self.handle_device_event(buffer),
+        }
+        let mut res = Ok(());
+        if self.next_housekeep < TS::now() {
+            res = self.housekeep();
+            self.next_housekeep = TS::now() + 1
+        }
+        res
+    }
+
+    /// What `run()` does after leaving its loop (without hooks and beacon file removal)
+    pub fn verif_shutdown(&mut self) {
+        let mut buffer = MsgBuffer::new(SPACE_BEFORE);
+        self.broadcast_msg(MESSAGE_TYPE_CLOSE, &mut buffer).ok();
+    }
+
+    pub fn verif_peer_crypto(&mut self, addr: &SocketAddr) -> Option<&mut PeerCrypto<NodeInfo>> {
+        self.peers.get_mut(addr).map(|p| &mut p.crypto)
+    }
+
+    pub fn verif_create_node_info(&self) -> NodeInfo {
+        self.create_node_info()
+    }
+
+    pub fn verif_snapshot(&self) -> crate::verif::NodeSnapshot {
+        let mut peers: Vec<_> = self
+            .peers
+            .iter()
+            .map(|(addr, p)| crate::verif::PeerSnapshot {
+                addr: *addr,
+                node_id: p.node_id,
+                timeout: p.timeout,
+                peer_timeout: p.peer_timeout,
+                addrs: p.addrs.to_vec(),
+                algorithm: p.crypto.algorithm_name(),
+                init_stage: p.crypto.verif_init_stage(),
+                current_key: p.crypto.verif_core().map(|c| c.verif_current_key()),
+                key_fps: p.crypto.verif_core().map(|c| c.verif_key_fps()),
+            })
+            .collect();
+        peers.sort_by_key(|p| p.addr);
+        let mut pending: Vec<_> = self.pending_inits.iter().map(|(a, c)| (*a, c.verif_init_stage())).collect();
+        pending.sort();
+        crate::verif::NodeSnapshot {
+            node_id: self.node_id,
+            own_addresses: self.own_addresses.to_vec(),
+            claims: self.claims.to_vec(),
+            peers,
+            pending,
+            reconnect: self
+                .reconnect_peers
+                .iter()
+                .map(|e| crate::verif::ReconnectSnapshot {
+                    address: e.address.as_ref().map(|a| a.0.clone()),
+                    resolved: e.resolved.to_vec(),
+                    tries: e.tries,
+                    timeout: e.timeout,
+                    next: e.next,
+                })
+                .collect(),
+            table: self.table.verif_snapshot(),
+            next_peers: self.next_peers,
+            next_housekeep: self.next_housekeep,
+            next_beacon: self.next_beacon,
+            update_freq: self.update_freq,
+            dropped_in_packets: self.traffic.dropped.in_packets_total + self.traffic.dropped.in_packets,
+            dropped_in_bytes: self.traffic.dropped.in_bytes_total + self.traffic.dropped.in_bytes,
+            dropped_out_packets: self.traffic.dropped.out_packets_total + self.traffic.dropped.out_packets,
+            dropped_out_bytes: self.traffic.dropped.out_bytes_total + self.traffic.dropped.out_bytes,
         }
     }
 }
